@@ -683,8 +683,13 @@ def run_check(modname, tier, seed, only=None, mutations=None, write_evidence=Tru
     plain_res = plain.map(reqs) if reqs else []
     validated = 0
     val_samples = []
+    reference_failures = []  # claims that are false on the plain import for the seeded reference inputs
     for i, rp in zip(order, plain_res):
         sd, rc = val_results[i]
+        if rp.get("status") == "ok":
+            for cname, good in rp.get("claims", []):
+                if not good and not any(fnmatch.fnmatch(cname, f.get("claim", "*")) and _cfg_match(configs[i], f.get("config")) for f in findings_open):
+                    reference_failures.append((i, cname, rc["drawn"], rp, sd))
         diffs = _compare_validation(rc, rp)
         if diffs:
             harness_errors.append(f"translator validation mismatch cfg={cfg_key(configs[i])}: {diffs[:4]}")
@@ -813,6 +818,16 @@ def run_check(modname, tier, seed, only=None, mutations=None, write_evidence=Tru
             violations.append(dict(cfg=configs[i], claim=cname, replay=rpath, values=mv))
         else:
             harness_errors.append(f"counterexample did not reproduce on the plain import: cfg={cfg_key(configs[i])} claim={cname} tried={json.dumps(tried)[:600]}")
+    # a claim that is false in the concrete reference run of the plain import is a counterexample on the real
+    # code as it stands (this also enforces claims that only the plain mode can evaluate, e.g. through real OpenCV)
+    for i, cname, drawn, rp, sd in reference_failures:
+        if any(v["cfg"] == configs[i] and v["claim"] == cname for v in violations):
+            continue
+        rid = hashlib.sha256((cfg_key(configs[i]) + cname + "ref").encode()).hexdigest()[:10]
+        rpath = os.path.join(VERIF, "replays", f"{prop}-{rid}.json")
+        os.makedirs(os.path.dirname(rpath), exist_ok=True)
+        json.dump(dict(property=prop, check=modname, cfg=configs[i], claim=cname, values=drawn, values_float={k: _to_float(v) for k, v in drawn.items()}, plain_result=rp, mutations=mutations, seed=sd, how="./check %s --replay %s" % (prop, rpath)), open(rpath, "w"), indent=1)
+        violations.append(dict(cfg=configs[i], claim=cname, replay=rpath, values=drawn))
     plain.close()
 
     # ---------------- report
@@ -1013,7 +1028,7 @@ def replay_file(path):
     d = json.load(open(path))
     modname = d["check"]
     pool = PlainPool(f"checks.{modname}", 1, d.get("mutations"))
-    rp = pool.call(dict(cfg=d["cfg"], values=d["values"], seed=0))
+    rp = pool.call(dict(cfg=d["cfg"], values=d["values"], seed=d.get("seed", 0)))
     pool.close()
     print(json.dumps(rp, indent=1)[:4000])
     if _replay_shows(rp, d["claim"]):
